@@ -290,6 +290,11 @@ func (ru *c15Run) snapshot() (*c15Snap, error) {
 			if err := list("adj-in@"+ps.Addr, apiutil.ListPathRequest{TableType: api.TableType_TABLE_TYPE_ADJ_IN, Name: ps.Addr, Family: f, EnableFiltered: true}, false, filt); err != nil {
 				return nil, fmt.Errorf("ListPath ADJ_IN %s %s: %w", ps.Addr, f, err)
 			}
+			if i == c.apTarget {
+				// ListPath(ADJ_OUT) keys an ADD-PATH neighbour's paths by remote path id and collapses
+				// them: no usable fresh view; the wire view (by prefix and attributes) is compared instead
+				continue
+			}
 			view := "adj-out@" + ps.Addr
 			if sn.views[view] == nil {
 				sn.views[view] = c15View{}
@@ -312,7 +317,15 @@ func (ru *c15Run) snapshot() (*c15Snap, error) {
 		sp := ru.sps[i]
 		v := c15View{}
 		for k, r := range sp.snapshot() {
-			v[k.Family.String()+"/"+k.Prefix] = r.Attrs + "|nh=" + r.Nexthop + "|"
+			key := k.Family.String() + "/" + k.Prefix
+			if i == c.apTarget {
+				// several paths per prefix; path ids are gobgp's business, a path is what it says
+				key += "|path=" + r.Attrs + " nh=" + r.Nexthop
+			}
+			if _, dup := v[key]; dup {
+				sn.anom = append(sn.anom, "duplicate:wire@"+ps.Addr+":"+key)
+			}
+			v[key] = r.Attrs + "|nh=" + r.Nexthop + "|"
 		}
 		sn.views["wire@"+ps.Addr] = v
 		if !sp.established() {
@@ -748,7 +761,7 @@ func (c *c15Case) exportTestsASPath() bool {
 func (c *c15Case) witness() map[string]any {
 	var peers, routes, chg []string
 	for _, p := range c.peers {
-		peers = append(peers, fmt.Sprintf("%s %s as%d v6=%v", p.Addr, p.Kind, p.AS, p.V6))
+		peers = append(peers, fmt.Sprintf("%s %s as%d v6=%v addpath-send-max=%d", p.Addr, p.Kind, p.AS, p.V6, p.SendMax))
 	}
 	for _, a := range c.routes {
 		routes = append(routes, a.String())
@@ -895,7 +908,10 @@ func c15Pair(t *testing.T, rec *vlib.Rec, idx int) {
 	// without any policy change or reset, the peer's wire view is no reference for C15: it is left out.
 	tainted := map[string]bool{}
 	for rn, s := range map[string]*c15Snap{"A-before-change": a.a1, "B": b} {
-		for _, ps := range c.peers {
+		for i, ps := range c.peers {
+			if i == c.apTarget {
+				continue
+			}
 			if ds := c15Compare(&c15Snap{views: map[string]c15View{"x": s.views["wire@"+ps.Addr]}}, &c15Snap{views: map[string]c15View{"x": s.views["adj-out@"+ps.Addr]}}, nil, nil); len(ds) > 0 {
 				tainted["wire@"+ps.Addr] = true
 				rec.Count("precondition_wire_ne_adjout_run_"+rn, 1)
